@@ -54,6 +54,12 @@ func (g *Graph) id(st any) int {
 	return i
 }
 
+// Lookup returns the id of the state a projection denotes.
+func (g *Graph) Lookup(st any) (int, bool) {
+	i, ok := g.index[absx.Canon(st)]
+	return i, ok
+}
+
 // Load parses TLC's output: lines are TLA+ string literals `"EDGE {json}"` / `"META {json}"`.
 // Lines are decoded in parallel; states are interned by the raw JSON text TLC printed for them
 // (identical for identical states), so each distinct state is decoded once.
@@ -289,7 +295,7 @@ func Walk(g *Graph, newImpl func() Impl, maxKeep int) *Report {
 			ok, resp, errStr := f.Exec(ed.E)
 			mu.Lock()
 			rep.Replayed++
-			rep.ByType[absx.Str(ed.E["type"])]++
+			rep.ByType[eventType(ed.E)]++
 			if ed.OK {
 				rep.EdgesOK++
 			}
@@ -399,6 +405,16 @@ func Walk(g *Graph, newImpl func() Impl, maxKeep int) *Report {
 	wg.Wait()
 	sort.SliceStable(rep.Mismatches, func(i, j int) bool { return len(rep.Mismatches[i].Path) < len(rep.Mismatches[j].Path) })
 	return rep
+}
+
+func eventType(e M) string {
+	if t, ok := e["type"]; ok {
+		return absx.Str(t)
+	}
+	if inner, ok := e["e"].(M); ok {
+		return absx.Str(e["chain"]) + "." + absx.Str(inner["type"])
+	}
+	return "?"
 }
 
 func dig(v any, path string) any {
